@@ -16,8 +16,10 @@ Collector level (every state, every batch):
 
 Partial: "once `cancel()` has been *called*" needs the drop to be drained no later than the
 commit: same thread → FIFO incl. parked commands (C09, D2 fix); a thread that exits with a
-full queue can lose the parked drop (open finding D3); a `start` drained after the drop
-re-creates the entry (open finding D4).
+full queue can lose the parked drop (open finding D3); across threads the drop, pushed before
+the commit, is drained no later than it by the second drain pass (D4 repair, see
+`C03_second_pass_collects_all`); a drop consumed one cycle before the trace's `start` is a no-op
+(open finding D14).
 -/
 namespace Fastrace
 
